@@ -18,7 +18,7 @@ open LimeModel.ClientLife
 /-- a channel that looks fine has its receiver -/
 def Inv (s : CL) : Prop := s.channelOK = true → s.receiverAlive = true
 
-theorem inv_step (s : CL) (o : Op) (h : Inv s) : Inv (step true s o) := by
+theorem inv_step (s : CL) (o : Op) (h : Inv s) : Inv (step Fix.all s o) := by
   unfold Inv at *
   cases o with
   | fault f => cases f <;> simp [step, fault, CL.channelOK]
@@ -33,8 +33,8 @@ theorem inv_step (s : CL) (o : Op) (h : Inv s) : Inv (step true s o) := by
     · exact h
     · intro _; rfl
 
-theorem inv_run (ops : List Op) : Inv (run true ops) := by
-  have key : ∀ (ops : List Op) (s : CL), Inv s → Inv (ops.foldl (step true) s) := by
+theorem inv_run (ops : List Op) : Inv (run Fix.all ops) := by
+  have key : ∀ (ops : List Op) (s : CL), Inv s → Inv (ops.foldl (step Fix.all) s) := by
     intro ops
     induction ops with
     | nil => intro s h; exact h
@@ -42,24 +42,24 @@ theorem inv_run (ops : List Op) : Inv (run true ops) := by
   exact key ops {} (by intro _; rfl)
 
 /-- **C19 (never wedged)** -/
-theorem never_wedged (ops : List Op) : (run true ops).wedged = false := by
+theorem never_wedged (ops : List Op) : (run Fix.all ops).wedged = false := by
   have h := inv_run ops
   unfold Inv at h
   unfold CL.wedged
-  cases hc : (run true ops).channelOK with
+  cases hc : (run Fix.all ops).channelOK with
   | false => rfl
   | true => simp [h hc]
 
 /-- **C19 (recovery)**: whatever happened before, a fault followed by any operation leaves the
 client on an established, connected channel with a live receiver, and that channel is a fresh one. -/
 theorem next_operation_rebuilds (ops : List Op) (f : Fault) :
-    let before := run true ops
-    let after := getOrBuild (fault true before f)
+    let before := run Fix.all ops
+    let after := getOrBuild (fault Fix.all before f)
     after.channelOK = true ∧ after.receiverAlive = true ∧ after.sessions = before.sessions + 1 := by
   cases f <;> simp [fault, getOrBuild, CL.channelOK]
 
 /-- **C19 (the listener does not spin)**: every iteration ends blocked on a live receiver. -/
-theorem listener_progress (ops : List Op) : (listenerIter (run true ops)).1 = true := by
+theorem listener_progress (ops : List Op) : (listenerIter (run Fix.all ops)).1 = true := by
   have h := inv_run ops
   unfold Inv at h
   simp only [listenerIter, getOrBuild]
@@ -70,9 +70,9 @@ theorem listener_progress (ops : List Op) : (listenerIter (run true ops)).1 = tr
 /-- the tree before the repair: deaf and spinning, and no operation ever repairs it -/
 theorem unfixed_wedges (f : Fault) (hf : f = .garbage ∨ f = .notEnvelope ∨ f = .oversize ∨ f = .oddSession) (ops : List Op)
     (hops : ∀ o ∈ ops, o = .send ∨ o = .listen) :
-    (run false (.fault f :: ops)).wedged = true ∧ (listenerIter (run false (.fault f :: ops))).1 = false := by
+    (run Fix.none (.fault f :: ops)).wedged = true ∧ (listenerIter (run Fix.none (.fault f :: ops))).1 = false := by
   have key : ∀ (ops : List Op) (s : CL), (∀ o ∈ ops, o = .send ∨ o = .listen) → s.wedged = true →
-      (ops.foldl (step false) s).wedged = true := by
+      (ops.foldl (step Fix.none) s).wedged = true := by
     intro ops
     induction ops with
     | nil => intro s _ h; exact h
@@ -82,17 +82,17 @@ theorem unfixed_wedges (f : Fault) (hf : f = .garbage ∨ f = .notEnvelope ∨ f
       have hok : s.channelOK = true := by
         unfold CL.wedged at h; simp at h; exact h.1
       rcases hall o (List.mem_cons_self ..) with rfl | rfl <;> simp [step, listenerIter, getOrBuild, hok, h]
-  have h0 : (step false {} (.fault f)).wedged = true := by
+  have h0 : (step Fix.none {} (.fault f)).wedged = true := by
     rcases hf with rfl | rfl | rfl | rfl <;> decide
   have hw := key ops _ hops h0
   refine ⟨hw, ?_⟩
-  have hw' : (run false (.fault f :: ops)).wedged = true := hw
+  have hw' : (run Fix.none (.fault f :: ops)).wedged = true := hw
   unfold CL.wedged at hw'
   simp at hw'
   simp [listenerIter, getOrBuild, hw'.1, hw'.2]
 
 /-- Non-vacuity: garbage, then a send: a second session exists. -/
-example : (run true [.fault .garbage, .send]).sessions = 2 := by decide
-example : (run false [.fault .garbage, .send]).sessions = 1 := by decide
+example : (run Fix.all [.fault .garbage, .send]).sessions = 2 := by decide
+example : (run Fix.none [.fault .garbage, .send]).sessions = 1 := by decide
 
 end Props.C19
